@@ -17,7 +17,8 @@ RULE = ('Hypothesis-generated SimNet programs: worlds over {byte-stream, message
         'element (everything handed before the failure is owed to the consumer); no cancels or faults; heal phase '
         'grants credit and runs to quiescence; in a sixth of the programs the client honours leases that are granted in '
         'portions of 0-3 requests. Plus wide programs: 17-48 requests with multi-fragment payloads all queued '
-        'before the sender runs, so that many partial frames are in flight at once. Oracle (reference model = the program): for every interaction the sequence of payloads '
+        'before the sender runs, so that many partial frames are in flight at once. Plus reconnect histories of one client '
+        'object in which the previous connection ended half way through a fragmented request or channel element. Oracle (reference model = the program): for every interaction the sequence of payloads '
         'observed at the peer callback equals the sequence handed in, byte for byte, exactly once, nothing foreign '
         '(every byte pattern encodes interaction, direction and index). Non-trivial = >= 2 interactions overlapping in '
         'time and (a payload of >= 2 fragments or a read buffer smaller than a frame); distinct = program hash.')
@@ -192,10 +193,30 @@ REGRESSION = [
 ]
 
 
+def reconnect_prop(wrapped):
+    """One client object over several connections (C17's reconnect histories with fragmentation on; the previous
+    connection ended while the server was half way through a fragmented request or channel element): what the callers
+    on the next connection receive is what their own requests produced, with nothing of the previous connection in it."""
+    from harness.checks import c17
+    case = wrapped['reconnect']
+    prog, plan = c17.build(case)
+    tr = run_program(prog)
+    probe_uids = [u for p_ in plan for u in p_['probes']]
+    skip = set(range(len(prog['inter']))) - set(probe_uids)
+    vs = monitors.mon_delivery(tr, PID, require_complete=False, skip_uids=skip)
+    info['nt'] = any(e.get('server_partial') for e in case['endings'])
+    info['classes'] = ['part=reconnect', 'reconnects=%d' % len(case['endings'])]
+    return vs
+
+
 def shard(tier, seed, n, wide=False):
     common.use_repo()
     stats = common.Stats()
     known = common.Known(PID)
+    if wide == 'reconnect':
+        from harness.checks import c05
+        common.hyp_search(stats, known, c05.reconnect_cases(), reconnect_prop, n, seed, classify=classify, shrink=False)
+        return stats
     if n is None:
         for p in REGRESSION:
             vs = prop(p)
@@ -216,10 +237,12 @@ def run(tier, seed):
     nsh = common.NPROC
     jobs = [dict(tier=tier, seed=0, n=None)] + [dict(tier=tier, seed=s, n=total // nsh) for s in common.shard_seeds(seed, nsh)]
     jobs += [dict(tier=tier, seed=s + 17, n=(32 if tier == 'quick' else 800) // 4, wide=True) for s in common.shard_seeds(seed, 4)]
+    jobs += [dict(tier=tier, seed=s + 23, n=(160 if tier == 'quick' else 4000) // 4, wide='reconnect') for s in common.shard_seeds(seed, 4)]
     stats = common.run_shards(__name__, 'shard', jobs)
     return common.finish(PID, tier, seed, LEVEL, RULE, stats, t0, ASSUMPTIONS)
 
 
 def replay(path):
     common.use_repo()
-    return common.report_replay(PID, path, prop(common.load_replay(path)))
+    case = common.load_replay(path)
+    return common.report_replay(PID, path, reconnect_prop(case) if 'reconnect' in case else prop(case))
